@@ -289,19 +289,32 @@ fn run_all(ctx: &Ctx, mode: Mode, bytes: &[u8], what: String, n_opts: usize) {
 
 fn sweep(ctx: &Ctx, mode: Mode) {
     let si = ctx.pick("seed", n_seeds());
-    let sd = seed(si);
+    // seed and menu are pure functions of the seed index: computed once per worker process
+    thread_local! {
+        static MENUS: std::cell::RefCell<std::collections::HashMap<usize, std::rc::Rc<(Seed, Vec<Mutation>)>>> = Default::default();
+    }
+    let entry = MENUS.with(|m| {
+        m.borrow_mut()
+            .entry(si)
+            .or_insert_with(|| {
+                let sd = seed(si);
+                let mn = if sd.bytes.is_empty() { Vec::new() } else { menu(&sd, si % 4 == 0) };
+                std::rc::Rc::new((sd, mn))
+            })
+            .clone()
+    });
+    let (sd, mn) = (&entry.0, &entry.1);
     if sd.bytes.is_empty() {
         ctx.machinery_error(format!("seed {si} ({}) is empty / unreadable", sd.name));
         return;
     }
-    let mn = menu(&sd, si % 4 == 0);
     // 0 = the unmutated seed
     let mi = ctx.pick("mutation", mn.len() + 1);
     let mut what = format!("seed {si} ({})", sd.name.chars().take(80).collect::<String>());
     let mut bytes = sd.bytes.clone();
     if mi > 0 {
         let mu = &mn[mi - 1];
-        match apply(&sd, mu) {
+        match apply(sd, mu) {
             Some(b) => bytes = b,
             None => {
                 ctx.count("mutation:not-applicable");
